@@ -108,7 +108,7 @@ Proof.
     unfold five. cbn [construct obs plays obs_build wave obs_meas]. rewrite !map_app, Hb, Hw, Hm.
     destruct (existsb (fun q => wave q rho drop) subs); rewrite ?map_app, ?Hm; reflexivity.
   - specialize (IHu Hu). destruct (five_inv _ _ _ _ _ _ (IHu rho drop)) as [H1 [H2 [H3 [H4 H5]]]].
-    unfold five. cbn [construct obs plays obs_build wave obs_meas]. rewrite !map_app, H1, H2, H3, H4. reflexivity.
+    unfold five. cbn [construct obs plays obs_build wave obs_meas]. rewrite !map_app, H1, H2, H3, H4, H5. reflexivity.
   - specialize (IHu Hu). destruct (five_inv _ _ _ _ _ _ (IHu rho drop)) as [H1 [H2 [H3 [H4 H5]]]].
     unfold five. cbn [construct obs plays obs_build wave obs_meas]. rewrite !map_app, H1, H2, H3, H4, H5. reflexivity.
   - apply uok_subs in Hu. rewrite Forall_forall in H, Hu.
@@ -314,6 +314,36 @@ Proof. vm_compute. reflexivity. Qed.
 Definition ex_ren : pt := Map (Ren (Atom KConst [1%N] [EVar 0%N] (EConst 2) [] []) [(1%N, 2%N)]) [] [].
 Example ex_ren_drop : create_program ex_ren [] [2%N] = Ok false /\ create_program ex_ren [] [1%N] = Err Missing
   /\ create_program ex_ren [(0%N, 1%Q)] [1%N] = Ok true.
+Proof. repeat split; vm_compute; reflexivity. Qed.
+
+(* round 4, the shapes of the seeded changes C03-5 / C03-6, decided by the model and by the specification:
+   (1) ForLoopPT(i) > MappingPT{i := k, v := i} > RepetitionPT > FunctionPT(v*t) constrained on i: the atom below the
+       repetition sees the *mapped* i (= k), not the loop index.  Names: i = 0, v = 1, k = 2; channel 7. *)
+Definition ex_frame (c : constr) : pt :=
+  For (Map (Rep (Atom KFunction [7%N] [EVar 1%N] (EConst 4) [c] []) (EConst 2) [] [])
+           [(0%N, EVar 2%N); (1%N, EVar 0%N)] [])
+      0%N (EConst 0) (EConst 3) (EConst 1) [] [].
+Example ex_frame_rebind :
+  pnames (construct (ex_frame (Constr OLt (EVar 0%N) (EConst 5)))) = [2%N]
+  /\ create_program (ex_frame (Constr OLt (EVar 0%N) (EConst 5))) [(2%N, 7%Q)] [] = Err Violated
+  /\ some_violated (ex_frame (Constr OLt (EVar 0%N) (EConst 5))) (lookup (SDict [(2%N, 7%Q)])) [] = true
+  /\ create_program (ex_frame (Constr OGt (EVar 0%N) (EConst 2))) [(2%N, 7%Q)] [] = Ok true
+  /\ all_hold (ex_frame (Constr OGt (EVar 0%N) (EConst 2))) (lookup (SDict [(2%N, 7%Q)])) [] = true.
+Proof. repeat split; vm_compute; reflexivity. Qed.
+(* (2) a loop over 0, -1, -2 whose body (a sequence, the same object in every iteration) demands i > -2: the last
+       iteration violates the constraint although hash(-1) = hash(-2) in Python -- the model has no memory; and the
+       same template instantiated with a = -1 and then with a = -2 (every call is judged on its own) *)
+Definition ex_hash_loop : pt :=
+  For (Seq [Atom KFunction [7%N] [EAdd (EVar 0%N) (EVar 1%N)] (EConst 4) [] []]
+           [Constr OGt (EVar 0%N) (EConst (-2))] [])
+      0%N (EConst 0) (EConst (-3)) (EConst (-1)) [] [].
+Definition ex_hash_rep : pt :=
+  Rep (Atom KFunction [7%N] [EVar 1%N] (EConst 4) [] []) (EConst 2) [Constr OGt (EVar 1%N) (EConst (-2))] [].
+Example ex_hash_collision :
+  create_program ex_hash_loop [(1%N, 1%Q)] [] = Err Violated
+  /\ some_violated ex_hash_loop (lookup (SDict [(1%N, 1%Q)])) [] = true
+  /\ create_program ex_hash_rep [(1%N, (-1)%Q)] [] = Ok true
+  /\ create_program ex_hash_rep [(1%N, (-2)%Q)] [] = Err Violated.
 Proof. repeat split; vm_compute; reflexivity. Qed.
 
 Print Assumptions construct_obs.
